@@ -167,6 +167,19 @@ func printStats(st *Stats) {
 		}
 		fmt.Printf("CASE paths=%d %s\n", c.n, c.k)
 	}
+	if forkStats != nil {
+		var fs []kv
+		for k, n := range forkStats {
+			fs = append(fs, kv{k, n})
+		}
+		sort.Slice(fs, func(i, j int) bool { return fs[i].n > fs[j].n })
+		for i, c := range fs {
+			if i >= 40 {
+				break
+			}
+			fmt.Printf("FORK x%d %s\n", c.n, c.k)
+		}
+	}
 	var notes []string
 	for n := range st.Notes {
 		notes = append(notes, n)
